@@ -72,9 +72,11 @@ def main(ctx):
         for p in range(nproc):
             reqs = []
             for ci, (threads, jitter) in enumerate(inproc_cfgs):
-                reqs.append(dict(tag="%d:%d:%d" % (si, p, ci), src=path, threads=threads, jitter=jitter, flags=flags))
+                reqs.append(dict(tag="%d:%d:%d" % (si, p, ci), src=path, threads=threads, jitter=jitter,
+                                 flags=[f for f in flags if f != "skip_features"], skip_features="skip_features" in flags))
             if p == 0:
-                reqs.append(dict(tag="%d:%d:ir" % (si, p), src=path, threads=4, flags=flags,
+                reqs.append(dict(tag="%d:%d:ir" % (si, p), src=path, threads=4,
+                                 flags=[f for f in flags if f != "skip_features"], skip_features="skip_features" in flags,
                                  ir_dir=ctx.path("ir", str(si), "x")[:-2]))
             jobs.append((si, p, reqs))
     common.log("%d sources x %d processes x %d configurations" % (len(srcs), nproc, len(inproc_cfgs)))
@@ -108,7 +110,8 @@ def main(ctx):
         out = ctx.path("cli", "%d_%d.ttf" % (si, n))
         extra = []
         for f in flags:
-            extra += {"flatten": ["--flatten-components"], "decompose": ["--decompose-components"]}.get(f, [])
+            extra += {"flatten": ["--flatten-components"], "decompose": ["--decompose-components"],
+                      "skip_features": ["--skip-features"]}.get(f, [])
         if n == 1:
             extra += ["--emit-ir"]
         o = common.run_fontc(path, out, extra=extra, timeout=120, env={"RAYON_NUM_THREADS": str(1 + 3 * n)})
@@ -133,7 +136,8 @@ def main(ctx):
             log.append(dict(key=key + "|cli", digest="FAIL:%s:%s" % (o["how"], o["status"]), cfg=cfg,
                             message=o["stderr"][-200:]))
     # library vs CLI: same bytes. Compare through one more library build written to disk.
-    lib_files = common.vh_batch([dict(tag=str(si), src=srcs[si][1], flags=srcs[si][2], out=ctx.path("lib", "%d.ttf" % si))
+    lib_files = common.vh_batch([dict(tag=str(si), src=srcs[si][1], flags=[f for f in srcs[si][2] if f != "skip_features"],
+                                      skip_features="skip_features" in srcs[si][2], out=ctx.path("lib", "%d.ttf" % si))
                                  for si in range(len(srcs))], procs=6)
     import hashlib
     for si, r in enumerate(lib_files):
@@ -187,11 +191,11 @@ def main(ctx):
             continue
         gs = [sched.load_graph(r) for r in good]
         gj, problems = graphs.build(gs[0], gs[1:])
-        gpath = ctx.path("graphs", rel.replace("/", "_") + ".json")
+        gpath = ctx.path("graphs", (rel + "".join("+" + f for f in flags)).replace("/", "_") + ".json")
         json.dump(gj, open(gpath, "w"))
         sl = [s for s in graphs.slices(gj, 9 if quick else 10) if s[1] >= 5][: (2 if quick else 6)]
         for n, (c, real, name) in enumerate(sl):
-            sp = ctx.path("slices", "%s_%d.json" % (rel.replace("/", "_"), n))
+            sp = ctx.path("slices", "%s_%d.json" % ((rel + "".join("+" + f for f in flags)).replace("/", "_"), n))
             json.dump(graphs.slice_graph(gj, c), open(sp, "w"))
             r = common.run_tlc(ctx, "Workload", "MCWorkloadGraph.cfg", workers=4, timeout=900, xmx="6g",
                                env={"GRAPH": sp}, tag="slice")
